@@ -144,31 +144,53 @@ def run_transform(ctx):
 
 
 def run_gcode(ctx):
+    import numpy as np
     from femto.pgmcompiler import PGMCompiler
+    from femto.waveguide import Waveguide
+    from femto.writer import WaveguideWriter
     rng = ctx.rng
     items, reqs = [], []
     for i in range(ctx.n(120, 2500)):
         cfg = gcommon.gen_cfg(rng, False)
         cfg = {k: cfg[k] for k in ('filename', 'shift_origin', 'flip_x', 'flip_y', 'rotation_angle', 'n_glass', 'n_environment', 'output_digits')}
-        cfg['output_digits'] = 6
+        # the print resolution is a formatting matter: with 3 or 4 digits the map must still be the documented one, also for the
+        # small tilts used to align a sample (their sine is below the print resolution, the displacement they cause is not)
+        cfg['output_digits'] = rng.choice([6, 6, 6, 4, 3])
+        if rng.random() < 0.3:
+            cfg['rotation_angle'] = rng.choice([0.05, 0.005, 0.02, -0.03, 89.97, 270.02, 180.04])
         n = rng.randint(2, 15)
-        rows = [[gcommon.f32(0.37 * j + rng.uniform(-0.1, 0.1)), gcommon.f32(rng.uniform(-5, 5)), gcommon.f32(rng.uniform(-1, 1)),
-                 gcommon.f32(5.0), 0.0] for j in range(n)]
+        wide = rng.random() < 0.4
+        rows = [[gcommon.f32((7.3 if wide else 0.37) * j + rng.uniform(-0.1, 0.1) - (40.0 if wide else 0.0)), gcommon.f32(rng.uniform(-5, 5) * (6 if wide else 1)),
+                 gcommon.f32(rng.uniform(-1, 1)), gcommon.f32(5.0), 0.0] for j in range(n)]
+        via = rng.choice(['compiler', 'compiler', 'writer'])
         with gcommon.Scratch() as d, core.quiet():
-            G = PGMCompiler(**cfg)
-            G.write(gcommon.to_np(rows))
-            G.close()
-            text = (d / 'prog.pgm').read_text()
-        items.append((cfg, rows))
+            if via == 'compiler':
+                G = PGMCompiler(**cfg)
+                G.write(gcommon.to_np(rows))
+                G.close()
+                text = (d / 'prog.pgm').read_text()
+            else:
+                # the same path exported through a writer (the writer builds its own compiler for the file)
+                wg = Waveguide()
+                a = np.array(rows, dtype=np.float32)
+                wg.add_path(a[:, 0], a[:, 1], a[:, 2], a[:, 3], a[:, 4])
+                WaveguideWriter([wg], **cfg).pgm(verbose=False)
+                text = (d / 'prog_WG.pgm').read_text()
+        ctx.count('gcode.via', via)
+        ctx.count('gcode.digits', str(cfg['output_digits']))
+        items.append((cfg, rows, via))
         reqs.append({'op': 'ctl.run', 'text': text})
         reqs.append(mreq(cfg, [r[:3] for r in rows]))
     res = ctx.driver.ask(reqs)
-    for i, (cfg, rows) in enumerate(items):
+    for i, (cfg, rows, via) in enumerate(items):
         impl, m = res[2 * i], res[2 * i + 1]
-        case = {'cfg': cfg, 'rows': rows}
+        case = {'cfg': cfg, 'rows': rows, 'via': via}
         ctx.seen({'stream': 'gcode', **case}, nontrivial(cfg, len(rows)))
         got = [tuple(float(gcommon.fr(v)) for v in e['dst']) for e in impl['events'] if e['t'] == 'm']
-        compare(ctx, 'gcode', case, got, m['out'], tol_for(cfg, [r[:3] for r in rows], False) + fractions.Fraction(1, 10 ** 6))
+        if via == 'writer':
+            got = got[:len(rows)]       # the writer adds its positioning move(s) after the structures
+        compare(ctx, 'gcode', case, got, m['out'], tol_for(cfg, [r[:3] for r in rows], False) + fractions.Fraction(1, 10 ** 6)
+                + fractions.Fraction(6, 10 ** (int(cfg['output_digits']) + 1)))
 
 
 def _small_column(rng):
